@@ -263,35 +263,91 @@ func effPlace(label string) string {
 	return p[0] + "://" + host + ":" + port
 }
 
-func (w *rdWorld) runCase(cs *rdCase) (trace []rdSeen, fills []string, errText string, timedOut bool) {
-	w.mu.Lock()
-	w.cases[cs.ID] = cs
-	delete(w.log, cs.ID)
-	w.mu.Unlock()
+func (w *rdWorld) urls(cs *rdCase) (apiURL, cfgURL string) {
 	start := cs.Nodes[0]
-	apiURL := w.url(start.L, cs.ID, 0, "")
-	cfgURL := apiURL
+	apiURL = w.url(start.L, cs.ID, 0, "")
+	cfgURL = apiURL
 	if cs.Source == "userinfo" {
 		// the LFS URL itself carries credentials: they belong to the API's own place
 		u, _ := url.Parse(apiURL)
 		u.User = url.UserPassword("u|"+strings.ReplaceAll(w.label(start.L), ":", "~"), "pw")
 		cfgURL = u.String()
 	}
+	return
+}
+
+// newClient: one lfsapi.Client for the given cases (the first one's URL is lfs.url). With `cache`
+// the credential source is git-lfs's own chain shape: its in-process credential cache in front of
+// the (scripted) helper, kept for the life of the client.
+func (w *rdWorld) newClient(cases []*rdCase, cache bool) (*lfsapi.Client, *rdHelper, error) {
+	_, cfg0 := w.urls(cases[0])
 	git := map[string][]string{
-		"lfs.url":        {cfgURL},
+		"lfs.url":        {cfg0},
 		"http.sslverify": {"false"},
 	}
-	if cs.Access == "basic" {
-		git["lfs."+apiURL+".access"] = []string{"basic"}
-		git["lfs."+cfgURL+".access"] = []string{"basic"}
+	can := false
+	for _, cs := range cases {
+		apiURL, cfgURL := w.urls(cs)
+		if cs.Access == "basic" {
+			git["lfs."+apiURL+".access"] = []string{"basic"}
+			git["lfs."+cfgURL+".access"] = []string{"basic"}
+		}
+		if cs.Creds && cs.Source != "userinfo" {
+			can = true
+		}
 	}
 	cfg := config.NewFrom(config.Values{Git: git})
 	client, err := lfsapi.NewClient(cfg)
 	if err != nil {
+		return nil, nil, err
+	}
+	helper := &rdHelper{can: can}
+	client.Credentials = helper
+	if cache {
+		client.Credentials = creds.NewCredentialHelpers([]creds.CredentialHelper{creds.NewCredentialCacher(), helper})
+	}
+	return client, helper, nil
+}
+
+func (w *rdWorld) runCase(cs *rdCase) (trace []rdSeen, fills []string, errText string, timedOut bool) {
+	w.mu.Lock()
+	w.cases[cs.ID] = cs
+	delete(w.log, cs.ID)
+	w.mu.Unlock()
+	client, helper, err := w.newClient([]*rdCase{cs}, false)
+	if err != nil {
 		return nil, nil, "client: " + err.Error(), false
 	}
-	helper := &rdHelper{can: cs.Creds && cs.Source != "userinfo"}
-	client.Credentials = helper
+	return w.exec(cs, client, helper)
+}
+
+// runSession: several requests, one after the other, on ONE client whose credential cache persists —
+// what a git-lfs command does (batch, then storage, then verify / locks, possibly on other hosts).
+func (w *rdWorld) runSession(cases []*rdCase) (traces [][]rdSeen, errs []string, timedOut []bool) {
+	w.mu.Lock()
+	for _, cs := range cases {
+		w.cases[cs.ID] = cs
+		delete(w.log, cs.ID)
+	}
+	w.mu.Unlock()
+	client, helper, err := w.newClient(cases, true)
+	for _, cs := range cases {
+		if err != nil {
+			traces, errs, timedOut = append(traces, nil), append(errs, "client: "+err.Error()), append(timedOut, false)
+			continue
+		}
+		tr, _, e, to := w.exec(cs, client, helper)
+		traces, errs, timedOut = append(traces, tr), append(errs, e), append(timedOut, to)
+	}
+	return
+}
+
+func (w *rdWorld) exec(cs *rdCase, client *lfsapi.Client, helper *rdHelper) (trace []rdSeen, fills []string, errText string, timedOut bool) {
+	w.mu.Lock()
+	w.cases[cs.ID] = cs
+	w.mu.Unlock()
+	start := cs.Nodes[0]
+	apiURL, cfgURL := w.urls(cs)
 	done := make(chan string, 1)
 	go func() {
 		defer func() {
@@ -393,31 +449,8 @@ func fmtTrace(w *rdWorld, tr []rdSeen) string {
 	return strings.Join(p, " ")
 }
 
-func c10(c *Ctx) {
-	r := NewRng(c.Seed ^ 0xC10)
-	n := c.N(1500, 20000)
-	w := newRdWorld()
-	defer w.close()
-	tls0 := http.DefaultTransport.(*http.Transport).TLSClientConfig
-	_ = tls0
-	_ = tls.Config{}
-	c.R.Rule = "cases = redirect graphs (depth 0..6, statuses 301/302/303/307/308, absolute/relative/malformed Location) over up to 7 real listeners (http/https, two ports, two host spellings, implicit ports 80/443) x entry {API request, storage request with action header, authenticated storage request} x access {none, basic} x helper {fills, fails}; non-trivial = trace with >= 1 cross-host or cross-scheme hop while credentials are present; distinct = different encoded case"
-	c.R.Notes = append(c.R.Notes, fmt.Sprintf("listeners: %d (implicit-port listeners bound: %v)", len(w.ls), len(w.ls) == 7))
-	var cases []*rdCase
-	for _, l := range corpusLines(c, "C10") {
-		if cs, ok := decodeRdCase(l); ok {
-			cases = append(cases, cs)
-		}
-	}
-	if c.Replay != "" {
-		cases = nil
-		if cs, ok := decodeRdCase(replayCase(c)); ok {
-			cases = append(cases, cs)
-		}
-		n = 0
-	}
+func genRdCase(r *Rng, w *rdWorld) *rdCase {
 	nl := len(w.ls)
-	for i := 0; i < n; i++ {
 		cs := &rdCase{Entry: Pick(r, []string{"api", "api", "header", "withauth"}), Access: Pick(r, []string{"none", "basic", "basic"}), Creds: r.Chance(80)}
 		if cs.Entry != "header" && r.Chance(30) {
 			cs.Source = "userinfo"
@@ -463,6 +496,34 @@ func c10(c *Ctx) {
 			cs.Nodes[depth].Status = 307
 			cs.Nodes[depth].Loc = "abs"
 		}
+	return cs
+}
+
+func c10(c *Ctx) {
+	r := NewRng(c.Seed ^ 0xC10)
+	n := c.N(1500, 20000)
+	w := newRdWorld()
+	defer w.close()
+	tls0 := http.DefaultTransport.(*http.Transport).TLSClientConfig
+	_ = tls0
+	_ = tls.Config{}
+	c.R.Rule = "cases = redirect graphs (depth 0..6, statuses 301/302/303/307/308, absolute/relative/malformed Location) over up to 7 real listeners (http/https, two ports, two host spellings, implicit ports 80/443) x entry {API request, storage request with action header, authenticated storage request} x access {none, basic} x helper {fills, fails}; non-trivial = trace with >= 1 cross-host or cross-scheme hop while credentials are present; distinct = different encoded case"
+	c.R.Notes = append(c.R.Notes, fmt.Sprintf("listeners: %d (implicit-port listeners bound: %v)", len(w.ls), len(w.ls) == 7))
+	var cases []*rdCase
+	for _, l := range corpusLines(c, "C10") {
+		if cs, ok := decodeRdCase(l); ok {
+			cases = append(cases, cs)
+		}
+	}
+	if c.Replay != "" {
+		cases = nil
+		if cs, ok := decodeRdCase(replayCase(c)); ok {
+			cases = append(cases, cs)
+		}
+		n = 0
+	}
+	for i := 0; i < n; i++ {
+		cs := genRdCase(r, w)
 		cases = append(cases, cs)
 	}
 	lines := make([]string, len(cases))
@@ -528,6 +589,166 @@ func c10(c *Ctx) {
 	for i := range cases {
 		if model[i] != impl[i] {
 			c.R.Add(Finding{Kind: "diff", What: "request trace: model and implementation disagree", Case: lines[i], Impl: clip(impl[i], 500), Model: clip(model[i], 500), Broken: "corr.C10.trace"})
+		}
+	}
+	if c.Replay == "" {
+		c10Sessions(c, r, w, len(cases)+10)
+		c10Cache(c, r)
+	}
+}
+
+// c10Sessions: the credential source "cache". A git-lfs command keeps ONE client, whose in-process
+// credential cache is filled by every approved request; later requests of the same command go to other
+// places (batch action hrefs, redirects, lock API). Whatever the cache answers, an Authorization value
+// must only ever reach the place it was obtained for.
+func c10Sessions(c *Ctx, r *Rng, w *rdWorld, firstID int) {
+	n := c.N(150, 3000)
+	type sess struct{ cases []*rdCase }
+	var all []sess
+	id := firstID
+	for i := 0; i < n; i++ {
+		var s sess
+		k := 2 + r.Intn(2)
+		for j := 0; j < k; j++ {
+			cs := genRdCase(r, w)
+			cs.Source = ""
+			if cs.Entry == "header" {
+				cs.Entry = "withauth"
+			}
+			cs.Access, cs.Creds = "basic", true
+			if j == 0 || r.Chance(40) {
+				// a request that ends in an approved 2xx on its own listener: this is what fills the cache
+				cs.Nodes = []rdNode{{L: r.Intn(len(w.ls)), Kind: "needauth", Then: "final", Loc: "abs"}}
+			}
+			if j > 0 && r.Chance(60) {
+				// start where an earlier request of the session was approved, but on another port / spelling / scheme
+				prev := s.cases[r.Intn(len(s.cases))].Nodes[0].L
+				var cand []int
+				for li, l := range w.ls {
+					if li != prev && l.Name == w.ls[prev].Name {
+						cand = append(cand, li)
+					}
+				}
+				if len(cand) > 0 {
+					cs.Nodes[0].L = Pick(r, cand)
+				}
+			}
+			id++
+			cs.ID = id
+			s.cases = append(s.cases, cs)
+		}
+		all = append(all, s)
+	}
+	var wg sync.WaitGroup
+	sem := make(chan struct{}, 12)
+	for _, s := range all {
+		wg.Add(1)
+		sem <- struct{}{}
+		go func(s sess) {
+			defer wg.Done()
+			defer func() { <-sem }()
+			traces, errs, tos := w.runSession(s.cases)
+			var encs []string
+			for _, cs := range s.cases {
+				encs = append(encs, cs.encode())
+			}
+			enc := "C10 session " + strings.Join(encs, " ;; ")
+			places := map[string]bool{}
+			for _, cs := range s.cases {
+				places[effPlace(w.label(cs.Nodes[0].L))] = true
+			}
+			c.R.Eval(enc, len(places) > 1)
+			c.R.Count("session")
+			for k, cs := range s.cases {
+				c.R.Count("session.result." + errs[k])
+				if tos[k] {
+					c.R.Add(Finding{Kind: "oracle", What: "the request did not finish within the deadline (unbounded redirect/auth loop)", Case: enc, Impl: clip(fmtTrace(w, traces[k]), 400)})
+					continue
+				}
+				if why := w.oracle(cs, traces[k]); why != "" {
+					c.R.Add(Finding{Kind: "oracle", What: why + " (request " + fmt.Sprint(k+1) + " of a session on one client with its credential cache)", Case: enc, Impl: clip(fmtTrace(w, traces[k]), 600)})
+				}
+			}
+		}(s)
+	}
+	wg.Wait()
+}
+
+// c10Cache: the real credentialCacher in process against CredCache.run: sequences of Fill / Approve /
+// Reject over keys that differ only in port, host spelling, protocol or path.
+func c10Cache(c *Ctx, r *Rng) {
+	n := c.N(600, 20000)
+	protos := []string{"https", "http"}
+	hosts := []string{"git.example", "git.example:8080", "git.example:9090", "git.example:443", "GIT.example", "other.example", "127.0.0.1:8080", "127.0.0.1:9090", "127.0.0.1"}
+	paths := []string{"", "", "", "org/repo", "org/other"}
+	var mlines, mimpl []string
+	for i := 0; i < n; i++ {
+		cache := creds.NewCredentialCacher()
+		var ops, outs []string
+		k := 2 + r.Intn(7)
+		hs := []string{Pick(r, hosts), Pick(r, hosts), Pick(r, hosts)}
+		var used [][3]string
+		for j := 0; j < k; j++ {
+			p, h, pa := Pick(r, protos), Pick(r, hs), Pick(r, paths)
+			if len(used) > 0 && r.Chance(55) {
+				u := Pick(r, used) // a key seen before in this sequence, or one that differs from it in one component
+				p, h, pa = u[0], u[1], u[2]
+				switch r.Intn(6) {
+				case 0:
+					h = Pick(r, hs)
+				case 1:
+					p = Pick(r, protos)
+				case 2:
+					pa = Pick(r, paths)
+				}
+			}
+			used = append(used, [3]string{p, h, pa})
+			in := creds.Creds{"protocol": []string{p}, "host": []string{h}}
+			if pa != "" {
+				in["path"] = []string{pa}
+			}
+			switch r.Intn(5) {
+			case 0, 1:
+				sec := 1 + r.Intn(1000)
+				in["username"] = []string{"u"}
+				in["password"] = []string{fmt.Sprint(sec)}
+				cache.Approve(in)
+				ops = append(ops, fmt.Sprintf("A:%s:%s:%s:%d", hexOrDash(p), hexOrDash(h), hexOrDash(pa), sec))
+				outs = append(outs, "-")
+			case 2:
+				cache.Reject(in)
+				ops = append(ops, fmt.Sprintf("R:%s:%s:%s", hexOrDash(p), hexOrDash(h), hexOrDash(pa)))
+				outs = append(outs, "-")
+			default:
+				got, err := cache.Fill(in)
+				ops = append(ops, fmt.Sprintf("F:%s:%s:%s", hexOrDash(p), hexOrDash(h), hexOrDash(pa)))
+				if err != nil || got == nil {
+					outs = append(outs, "miss")
+					c.R.Count("cache.miss")
+				} else {
+					outs = append(outs, "hit:"+creds.FirstEntryForKey(got, "password"))
+					c.R.Count("cache.hit")
+					// the property, on the implementation alone: what comes out was approved for this very key
+					if creds.FirstEntryForKey(got, "protocol") != p || creds.FirstEntryForKey(got, "host") != h || creds.FirstEntryForKey(got, "path") != pa {
+						c.R.Add(Finding{Kind: "oracle", What: "the credential cache answered a request for one place with a credential approved for another", Case: "C10 cache " + strings.Join(ops, ","),
+							Impl: fmt.Sprintf("asked %s://%s/%s got %s://%s/%s", p, h, pa, creds.FirstEntryForKey(got, "protocol"), creds.FirstEntryForKey(got, "host"), creds.FirstEntryForKey(got, "path"))})
+					}
+				}
+			}
+		}
+		line := "C10 cache " + strings.Join(ops, ",")
+		c.R.Eval(line, true)
+		mlines = append(mlines, line)
+		mimpl = append(mimpl, strings.Join(outs, ","))
+	}
+	model, err := c.Or.Ask(mlines)
+	if err != nil {
+		c.R.Add(Finding{Kind: "diff", What: "oracle process failed: " + err.Error(), Broken: "corr.C10.cache"})
+		return
+	}
+	for i := range mlines {
+		if model[i] != mimpl[i] {
+			c.R.Add(Finding{Kind: "diff", What: "credential cache: model and implementation disagree", Case: mlines[i], Impl: mimpl[i], Model: model[i], Broken: "corr.C10.cache"})
 		}
 	}
 }
